@@ -138,7 +138,7 @@ PROPS = {
                    "operators). Product<Self> / Product<&Self> are proved in unit sumprod for sequences of any length (empty product = 1, BITS = 0 gives 0) with the same declared rewrites as Sum (slice-iterator instance, fold written as its definition)",
         technique="deductive contracts (Verus, all widths) over the real multiplication code; Kani for Product and as counterexample source at tiny widths",
         units=["core", "basics", "add", "kernels", "addnx1", "addmul", "addmul_n", "mul", "invring", "forward", "sumprod"],
-        kani=dict(
+        kani=dict(sweep_only=['cn::cn_mul_w65', 'cn::cn_mul_w128', 'cn::cn_mul_w192', 'cn::cn_mul_w250', 'cn::cn_mul_w320'], 
             features=None,
             quick=["c02::c02_inv_ring_cond_w0", "c02::c02_inv_ring_w1", "c02::c02_inv_ring_w8", "c02::c02_product_w8", "c02::c02_mulc_zero_w128", "c02::c02_mulc_zero_w65", "c02::c02_mulc_zero_w192"],
             thorough=["c02::c02_inv_ring_cond_w0", "c02::c02_inv_ring_w1", "c02::c02_inv_ring_w8", "c02::c02_inv_ring_w16", "c02::c02_product_w8", "c02::c02_mulc_zero_w128", "c02::c02_mulc_zero_w65", "c02::c02_mulc_zero_w192", "c02::c02_mul_grid_w128", "c02::c02_mul_grid_w127", "c02::c02_mul_grid_w192"],
@@ -243,7 +243,7 @@ PROPS = {
                    "one fact about u64::leading_zeros (lemma_lz_facts, Kani full domain), Option::copied, slice::fill, u128::overflowing_sub specs",
         technique="deductive contracts (Verus, all slice lengths and limb values) on the division kernels",
         units=["kernels", "div_small", "knuth", "divd", "recip_table"],
-        kani=dict(features=None, quick=hs("c14"), thorough=hs("c14"), bounds="leading_zeros fact: all u64 (loop-free, complete); reciprocal_mg10: 7 concrete divisors per table row 0..=254 (BOUNDED)"),
+        kani=dict(sweep_only=['cn::cn_div_w64', 'cn::cn_div_w65', 'cn::cn_div_w128', 'cn::cn_div_w192', 'cn::cn_div_w256', 'cn::cn_div_w320'], features=None, quick=hs("c14"), thorough=hs("c14"), bounds="leading_zeros fact: all u64 (loop-free, complete); reciprocal_mg10: 7 concrete divisors per table row 0..=254 (BOUNDED)"),
         explanation="each kernel's documented conditions of use are its requires; its ensures is the Euclidean identity in lvr() terms with the in-place layout",
         trusted=COMMON_TRUST,
         not_decided=["body of reciprocal_mg10 beyond its lookup table and the concrete row-edge grid (bounded)", "div_nxm_normalized"],
@@ -256,7 +256,7 @@ PROPS = {
                    "'zero divisor panics' is a Kani should_panic obligation per width (c03p), 'non-zero divisor never panics' is the Verus no-panic obligation under d != 0",
         technique="deductive contracts (Verus, all widths) + Kani should_panic/None harnesses per width",
         units=["core", "basics", "add", "mul", "kernels", "addnx1", "addmul", "addmul_n", "div_small", "knuth", "divd", "divw", "forward"],
-        kani=dict(features=None, quick=hs("c03p", None, r"_w8_|divrem_w8") + hs("c14", r"reciprocal_rows"), thorough=hs("c03p") + hs("c14", r"reciprocal_rows"), bounds="widths 1, 64, 65 for the zero-divisor clauses; 8-bit exhaustive division; reciprocal_mg10 on a concrete row-edge grid (bounded)"),
+        kani=dict(sweep_only=['cn::cn_div_w64', 'cn::cn_div_w65', 'cn::cn_div_w128', 'cn::cn_div_w192', 'cn::cn_div_w256', 'cn::cn_div_w320'], features=None, quick=hs("c03p", None, r"_w8_|divrem_w8") + hs("c14", r"reciprocal_rows"), thorough=hs("c03p") + hs("c14", r"reciprocal_rows"), bounds="widths 1, 64, 65 for the zero-divisor clauses; 8-bit exhaustive division; reciprocal_mg10 on a concrete row-edge grid (bounded)"),
         explanation="the property's sentences are postconditions of the Uint methods; r < d and n = q*d + r give q = floor(n/d) by lemma_euclid",
         trusted=COMMON_TRUST,
         not_decided=["/ and % operator impls (forwarding only)"],
@@ -288,7 +288,7 @@ PROPS = {
                    "ASSUMED: Ordering::eq, u128::overflowing_add specs; the precondition inv*m[0] = -1 mod 2^64 is the documented caller obligation",
         technique="deductive contracts (Verus, all N / all widths) + Kani per N for the final conditional subtraction as counterexample source",
         units=["core", "basics", "add", "kernels", "mul_redc", "modular"],
-        kani=dict(features=None, quick=hs("c11"), thorough=hs("c11"), bounds="reduce1_carry: N in 1..4, all inputs"),
+        kani=dict(sweep_only=['cn::cn_redc_w64', 'cn::cn_redc_w128', 'cn::cn_redc_w192', 'cn::cn_redc_w256'], features=None, quick=hs("c11"), thorough=hs("c11"), bounds="reduce1_carry: N in 1..4, all inputs"),
         explanation="mul_redc: outer invariant B^k * Acc = a * lv(b,k) + m*mu and Acc < 2m; inner row invariant; threshold argument for the dropped carry. "
                     "square_redc: outer invariant B^i * Acc = P_i*(2a - P_i) + m*mu with P_i = lv(a,i), mu < B^i, hence Acc < 2a + m < 3m (carry_outer <= 2) and Acc < 2m at the end; "
                     "two inner invariants (row of doubled products with a two-word carry, reduction row); the 0x3fff.. threshold branch is proved not to drop a carry",
@@ -395,7 +395,7 @@ PROPS = {
         units=["core", "basics", "add", "modular", "gcdext", "gcdw", "lehmer", "jebelean",
                # callees whose contracts the modular functions rely on: the wide product (mul_mod) and the division chain (reduce_mod, mul_mod, inv_mod)
                "kernels", "addnx1", "addmul", "addmul_n", "mul", "div_small", "knuth", "divd", "divw"],
-        kani=dict(features=None, quick=hs("c10", None, r"gcd|lcm"), thorough=hs("c10", None, r"gcd|lcm"), bounds="tiny widths (2-8 bits) and reduced add_mod at 64..192 bits, see kani/src/c10.rs"),
+        kani=dict(sweep_only=['cn::cn_mod_w64', 'cn::cn_mod_w65', 'cn::cn_mod_w128', 'cn::cn_mod_w192', 'cn::cn_mod_w256'], features=None, quick=hs("c10", None, r"gcd|lcm"), thorough=hs("c10", None, r"gcd|lcm"), bounds="tiny widths (2-8 bits) and reduced add_mod at 64..192 bits, see kani/src/c10.rs"),
         explanation="postconditions over val() with vstd's modular-arithmetic lemma library; inv_mod: ghost cofactor magnitudes T0 <= T1 with T1*a + T0*b = m, a = +-T0*n + ka*m, stored cofactors = signed values mod 2^BITS",
         trusted=COMMON_TRUST,
         not_decided=[],
@@ -416,7 +416,7 @@ PROPS = {
         units=["core", "gcd", "gcdext", "gcdw", "lehmer", "jebelean",
                # callees: the division chain (Euclidean steps, lcm) and multiplication (Lehmer apply, lcm)
                "basics", "kernels", "addnx1", "addmul", "addmul_n", "mul", "div_small", "knuth", "divd", "divw"],
-        kani=dict(features=None, quick=hs("c10", r"gcd|lcm") + hs("core_specs", r"u128_leading"), thorough=hs("c10", r"gcd|lcm") + hs("core_specs", r"u128_leading"), bounds="3-4 bits, all pairs"),
+        kani=dict(sweep_only=['cn::cn_gcd_w64', 'cn::cn_gcd_w65', 'cn::cn_gcd_w128', 'cn::cn_gcd_w192', 'cn::cn_gcd_w256'], features=None, quick=hs("c10", r"gcd|lcm") + hs("core_specs", r"u128_leading"), thorough=hs("c10", r"gcd|lcm") + hs("core_specs", r"u128_leading"), bounds="3-4 bits, all pairs"),
         explanation="gcd: invariant gcd(a, b) = gcd(a0, b0), a >= b; decreases b. gcd_extended: a = S0*A + T0*B, b = S1*A + T1*B over the integers, stored s/t = S/T mod 2^BITS. from_u64_prefix: a sliding window of four "
                     "consecutive prefix remainders and cofactor pairs in one of two orientations (lemma_win_step), cofactors < 2^32 from the inverse identities yn*r3 + y3*rn = a0; Jebelean: with aa = a0*2^k + ta, "
                     "c = ax*2^k + (ux*ta - vx*tb) >= ..., the tested inequalities give 0 <= d < c on the full numbers, the inverse map aa = vy*c + vx*d, bb = uy*c + ux*d gives c <= bb, the entry bounds and the equal gcd",
